@@ -3,7 +3,12 @@
 package fr
 
 import (
+	"bytes"
 	"encoding/binary"
+	"sort"
+	"sync"
+
+	"github.com/google/gopacket/macs"
 
 	"verifharness/hlib"
 )
@@ -19,7 +24,7 @@ func Eth(dst, src []byte, etype uint16) []byte {
 
 // IPOpt describes an IPv4 header; zero values give a plain 20-byte header.
 type IPOpt struct {
-	Version   int    // default 4
+	Version   int // default 4
 	TOS       uint8
 	IHL       int    // default 5 + len(Options)/4; -1 = 0
 	TotalLen  int    // -1: computed from payload; else verbatim (0 allowed)
@@ -216,4 +221,35 @@ func (g Gen) TCPOptions() []byte {
 		return []byte{1, 1, 8, 10, 0, 0, 0, 1, 0, 0, 0, 2}
 	}
 	return nil
+}
+
+var (
+	ouiOnce sync.Once
+	ouis    [][3]byte
+)
+
+// OUIs returns the registered prefixes of gopacket's vendor table in a fixed order.
+func OUIs() [][3]byte {
+	ouiOnce.Do(func() {
+		for k := range macs.ValidMACPrefixMap {
+			ouis = append(ouis, k)
+		}
+		sort.Slice(ouis, func(i, j int) bool { return bytes.Compare(ouis[i][:], ouis[j][:]) < 0 })
+	})
+	return ouis
+}
+
+// SenderMAC draws a sender hardware address: with a registered OUI (vendor known), locally administered
+// (bit 0x02 of the first byte set, no OUI), or random.
+func (g Gen) SenderMAC() []byte {
+	m := g.R.Bytes(6)
+	switch g.R.Intn(10) {
+	case 0, 1, 2, 3:
+		o := OUIs()
+		p := o[g.R.Intn(len(o))]
+		copy(m, p[:])
+	case 4, 5, 6:
+		m[0] = m[0]&^1 | 2
+	}
+	return m
 }
